@@ -96,7 +96,7 @@ func newScratchDir() (string, error) {
 		return "", fmt.Errorf("drv: scratch root not set")
 	}
 	n := atomic.AddInt64(&scratchSeq, 1)
-	d := filepath.Join(scratchRoot, fmt.Sprintf("w%d", n))
+	d := filepath.Join(scratchRoot, fmt.Sprintf("p%d-w%d", os.Getpid(), n))
 	return d, os.MkdirAll(d, 0o755)
 }
 
